@@ -34,8 +34,8 @@ type caseC19 struct {
 	Ops []opC19
 }
 
-var c19Files = []string{"2023/times.klg", "2024/times.klg", "a.klg", "with space.klg", "quo\"te.klg", "ünï çödé.klg", "it's.klg", "semi;colon&amp.klg", "back\\slash.klg", "日本語.klg", "tab\there.klg", "@at.klg"}
-var c19Names = []string{"work", "@work", "Work", "ünï", "a b", "q\"uote", "it's", "back\\slash", "<&>", " ", "", "default", "@default", "x@y", "名前", "tab\tname", "@", "new\nline", "emoji🙂", "{json}", "a,b", "@日本"}
+var c19Files = []string{"2023/times.klg", "2024/times.klg", "a.klg", "with space.klg", "quo\"te.klg", "ünï çödé.klg", "it's.klg", "semi;colon&amp.klg", "back\\slash.klg", "日本語.klg", "tab\there.klg", "@at.klg", "bell\a.klg", "del\x7f.klg", "esc\x1b[0m.klg"}
+var c19Names = []string{"work", "@work", "Work", "ünï", "a b", "q\"uote", "it's", "back\\slash", "<&>", " ", "", "default", "@default", "x@y", "名前", "tab\tname", "@", "new\nline", "emoji🙂", "{json}", "a,b", "@日本", "bell\aname", "vt\vname", "del\x7fname", "\x01ctl", "flag\U000E0067\U000E007F", "esc\x1b"}
 
 func c19NameOf(s string) string {
 	s = strings.TrimPrefix(s, "@")
